@@ -18,6 +18,9 @@ Definition Jx (s : state) (X : list host) : Prop :=
 Definition same_cover (s s' : state) : Prop :=
   consumed s' = consumed s /\ errors s' = errors s /\ attempts s' = attempts s /\ queue s' = queue s.
 
+Lemma same_cover_sbo s s' : same_but_outcome s s' -> same_cover s s'.
+Proof. intros F. destruct F. repeat split; assumption. Qed.
+
 Lemma Jx_same s s' X : same_cover s s' -> Jx s X -> Jx s' X.
 Proof.
   intros (C & E & A & Q) [J1 J2]. unfold Jx, covered, open_hosts. rewrite C, E, A, Q. split; assumption.
@@ -59,7 +62,7 @@ Proof. reflexivity. Qed.
 Lemma Jx_walk : forall p s b s' ev X, Jx s X -> walk s p b = (s', ev) -> Jx s' X.
 Proof.
   induction p as [|h rest IH]; intros s b s' ev X J H.
-  - cbn in H. inversion H; subst. destruct b; [|exact J]. eapply Jx_same; [|exact J]. repeat split.
+  - cbn in H. inversion H; subst. destruct b; [|exact J]. eapply Jx_same; [|exact J]. apply same_cover_sbo, fail_with_same.
   - cbn [walk] in H.
     assert (J0 : Jx (take_host s h rest) (h :: X)).
     { destruct J as [J1 J2]. split; [|exact J2]. intros x Hx. cbn [consumed take_host] in Hx.
@@ -158,13 +161,17 @@ Definition finishes_otherwise (s s' : state) : Prop :=
 Ltac fin_other := right; right; eexists; split; [reflexivity|intros e0; discriminate].
 Ltac fin_res_changed Hres := right; left; split; [cbn; rewrite Hres; discriminate|reflexivity].
 
-Lemma set_result_J c s0 h r s' ev : Jx s0 [h] -> fin_res s0 = None -> set_result c s0 h r = (s', ev) ->
+Lemma set_result_J c s0 h r s' ev : Jx s0 [h] -> fin_res s0 = None -> fin_exc s0 = None -> set_result c s0 h r = (s', ev) ->
   Jx s' [] \/ finishes_otherwise s0 s'.
 Proof.
-  intros J Hres H. destruct r; cbn [set_result] in H; try (inversion H; subst; fin_other);
+  intros J Hres Hexc H. pose proof (not_completed s0 Hres Hexc) as NC. destruct r; cbn [set_result] in H;
+    unfold fail_with, finish_with in H; rewrite ?NC in H;
+    try (inversion H; subst; fin_other);
     try (inversion H; subst; fin_res_changed Hres).
   - destruct (pol c (nconsult s0) k tag (retries s0) (if request_error_kind k then msg_cl s0 else None)) as [d dcl].
-    unfold handle_decision in H. inversion H; subst; clear H.
+    unfold handle_decision in H.
+    unfold fail_with, finish_with in H. change (completed (tick_consult s0)) with (completed s0) in H. rewrite ?NC in H.
+    inversion H; subst; clear H.
     destruct d.
     + left. set (s1 := bump_retry (tick_consult s0) dcl (TRetry true h)).
       assert (J1 : Jx (set_err s1 h (EResp k tag)) [h] /\ covered (set_err s1 h (EResp k tag)) h).
@@ -196,9 +203,9 @@ Proof.
           apply in_app_iff in Hin. destruct Hin as [Hin|[Hin|[]]]; [right; eapply J2; eauto|]. inversion Hin; subst. auto.
         - left. cbn [errors set_err]. apply keys_upd. auto. }
       destruct J1 as [Ja Jb]. eapply Jx_resolve; eauto.
-  - unfold unprepared in H.
+  - unfold unprepared, fail_with in H. rewrite ?NC in H.
     assert (G : forall ps, unprep_go c s0 h ps = (s', ev) -> Jx s' [] \/ finishes_otherwise s0 s').
-    { intros [[pid qs] ks0] G. unfold unprep_go in G.
+    { intros [[pid qs] ks0] G. unfold unprep_go, fail_with in G. rewrite ?NC in G.
       destruct (negb (uses_ks c) && is_some ks0 && negb (opt_eqb (conn_ks s0) ks0)); inversion G; subst; [fin_other|].
       left. destruct (Jx_push s0 [h] (TReprepare h qs (if uses_ks c then ks0 else None))) as [Ja Jb]; auto.
       - intros reuse x E. discriminate.
@@ -209,10 +216,11 @@ Proof.
     + destruct (lookup (known c) id); [eapply G; eauto|inversion H; subst; fin_other].
 Qed.
 
-Lemma after_prepare_J c s0 h r s' ev : Jx s0 [h] -> fin_exc s0 = None -> after_prepare c s0 h r = (s', ev) ->
+Lemma after_prepare_J c s0 h r s' ev : Jx s0 [h] -> fin_res s0 = None -> fin_exc s0 = None -> after_prepare c s0 h r = (s', ev) ->
   Jx s' [] \/ finishes_otherwise s0 s'.
 Proof.
-  intros J E H. unfold after_prepare in H. rewrite E in H. cbn [is_some] in H.
+  intros J Hres E H. unfold after_prepare in H. rewrite E in H. cbn [is_some] in H.
+  pose proof (not_completed s0 Hres E) as NC. unfold fail_with in H. rewrite ?NC in H.
   assert (Q : forall s2 e2 m cz, query_or_next s0 h m cz = (s2, e2) -> Jx s2 []).
   { intros s2 e2 m cz Q. destruct (Jx_qon _ _ _ _ _ _ _ J Q) as [Ja Jb]. eapply Jx_resolve; eauto. }
   destruct r; try (inversion H; subst; fin_other).
@@ -278,6 +286,12 @@ Proof.
   apply walk_frame_ok in W. rewrite (wf_res _ _ W). exact Q1.
 Qed.
 
+Lemma finish_res_keep s0 r : res_keep s0 (finish_with s0 r).
+Proof. destruct (finish_with_res s0 r) as [E _]. destruct (completed s0); [left; exact E|right; eexists; exact E]. Qed.
+
+Lemma fail_res_keep s0 x : res_keep s0 (fail_with s0 x).
+Proof. left. apply fail_with_exc. Qed.
+
 Lemma step_res_keep c s o s' ev : step c s o = (s', ev) -> res_keep s s'.
 Proof.
   intros H. destruct o as [|i r|k| |h0 p|k]; cbn [step] in H.
@@ -285,17 +299,23 @@ Proof.
   - destruct (nth_error (attempts s) i) as [a|]; [|inversion H; subst; left; reflexivity].
     destruct (a_done a); [inversion H; subst; left; reflexivity|].
     destruct (a_prep a); [inversion H; subst; left; reflexivity|].
-    destruct r; cbn [set_result] in H; try (inversion H; subst; (left; reflexivity) || (right; eexists; reflexivity)).
+    set (s0 := set_attempts s (mark_done i (attempts s))) in *.
+    change (res_keep s0 s').
+    destruct r; cbn [set_result] in H;
+      try (inversion H; subst; first [apply finish_res_keep | apply fail_res_keep]).
     + destruct (pol c _ k tag _ _) as [d dcl]. unfold handle_decision in H. inversion H; subst.
-      destruct d; try (left; reflexivity). right; eexists; reflexivity.
+      destruct d; try (left; reflexivity).
+      * exact (fail_res_keep (tick_consult s0) (XResp k tag)).
+      * exact (finish_res_keep (tick_consult s0) FNone).
     + unfold unprepared in H.
-      assert (G : forall s0 ps, unprep_go c s0 (a_host a) ps = (s', ev) -> fin_res s' = fin_res s0).
-      { intros s0 [[pid qs] ks0] G. unfold unprep_go in G.
-        destruct (negb (uses_ks c) && is_some ks0 && negb (opt_eqb (conn_ks s0) ks0)); inversion G; subst; reflexivity. }
-      left. destruct (fut_ps c) as [[[pid pqs] pks]|].
-      * destruct (negb (pid =? id)); [inversion H; subst; reflexivity|].
+      assert (G : forall ps, unprep_go c s0 (a_host a) ps = (s', ev) -> res_keep s0 s').
+      { intros [[pid qs] ks0] G. unfold unprep_go in G.
+        destruct (negb (uses_ks c) && is_some ks0 && negb (opt_eqb (conn_ks s0) ks0)); inversion G; subst;
+          [apply fail_res_keep|left; reflexivity]. }
+      destruct (fut_ps c) as [[[pid pqs] pks]|].
+      * destruct (negb (pid =? id)); [inversion H; subst; apply fail_res_keep|].
         destruct (lookup (known c) id); apply G in H; exact H.
-      * destruct (lookup (known c) id); [apply G in H; exact H|inversion H; subst; reflexivity].
+      * destruct (lookup (known c) id); [apply G in H; exact H|inversion H; subst; apply fail_res_keep].
   - destruct (nth_error (queue s) k) as [t|]; [|inversion H; subst; left; reflexivity]. left.
     destruct t as [reuse h|h qs ks0|h r]; cbn [run_task] in H.
     + destruct (is_some (fin_exc (set_queue s (remove_nth k (queue s))))); [inversion H; subst; reflexivity|].
@@ -303,11 +323,11 @@ Proof.
     + apply qon_res in H; exact H.
     + unfold after_prepare in H.
       destruct (is_some (fin_exc (set_queue s (remove_nth k (queue s))))); [inversion H; subst; reflexivity|].
-      destruct r; try (inversion H; subst; reflexivity).
+      destruct r; try (inversion H; subst; exact (proj2 (fail_with_exc _ _))).
       * destruct (fut_ps c) as [[[pid pqs] pks]|].
-        -- destruct (negb (pid =? id)); [inversion H; subst; reflexivity|apply qon_res in H; exact H].
+        -- destruct (negb (pid =? id)); [inversion H; subst; exact (proj2 (fail_with_exc _ _))|apply qon_res in H; exact H].
         -- apply qon_res in H; exact H.
-      * destruct (is_conn_kind k0); [|inversion H; subst; reflexivity].
+      * destruct (is_conn_kind k0); [|inversion H; subst; exact (proj2 (fail_with_exc _ _))].
         destruct (send_request _ true) as [s2 ev2] eqn:W. inversion H; subst.
         apply walk_frame_ok in W. apply W.
   - left. unfold spec_fire in H.
